@@ -5,6 +5,7 @@
 From Coq Require Import List String ZArith Bool.
 From GG Require Import Base.Strs Model.Config Model.GoTypes Model.GoAst Model.Annots Model.Analyze Model.Driver
                        Extracted Exec Proofs.DriverProofs.
+From GG Require Proofs.OpsProofs Proofs.LocalProofs.
 Import ListNotations.
 Local Open Scope string_scope.
 
@@ -78,9 +79,30 @@ Example C11_nonvacuous :
   existsb (fun e => let '(_, n, _, w, _) := e in String.eqb n "cachedConfig" && negb (match w with [] => true | _ => false end)) shared_state = true.
 Proof. vm_compute. repeat split; reflexivity. Qed.
 
+(* PARSE ORDER.  The files of a package are parsed concurrently; which file gets which range of token.Pos depends on the schedule.
+   The analysis never depends on that order: the markers that a file's @ignore comments give rise to lie inside that file's
+   range (LocalProofs.ops_comments_in_span), ranges of different files are disjoint, hence the suppression decision at a position
+   of file g is the decision under g's OWN comments and the project-wide exclusion - an expression in which the other files,
+   and therefore their ranges and the order of the ranges, do not occur.  (Each file on its own is covered by
+   C12_whole_analysis_relayout: any strictly monotone, line-preserving re-basing of its positions relabels and changes nothing.)
+   Input conditions, evaluated on every serialised package: x_ranges_ok (everything of a file inside [first line start, end];
+   ranges pairwise disjoint), x_pos_ok. *)
+Theorem C11_suppression_is_file_local :
+  forall cfg p A g B oa og ob c q,
+    LocalProofs.x_ranges_ok cfg p = true -> OpsProofs.x_pos_ok cfg p = true -> kept_files cfg p = (A ++ g :: B)%list ->
+    ignore_ops_files re_ignore kw_ignore A = Some oa ->
+    ignore_ops_comments re_ignore kw_ignore g (List.concat (f_comments g)) = Some og ->
+    ignore_ops_files re_ignore kw_ignore B = Some ob ->
+    LocalProofs.in_span g q ->
+    let glob := fun ops : list IgnoreSet.op => match exclude_checks cfg with nil => ops | cs => IgnoreSet.OpGlobal cs :: ops end in
+    x_ignore_ops cfg p = Some (glob (oa ++ og ++ ob)%list) /\
+    x_suppressed (glob (oa ++ og ++ ob)%list) c q = x_suppressed (glob og) c q.
+Proof. exact LocalProofs.package_suppression_is_file_local. Qed.
+
 Print Assumptions C11_schedule_independent.
 Print Assumptions C11_two_schedules_agree.
 Print Assumptions C11_run_set_independent.
 Print Assumptions C11_config_cell_is_write_once.
 Print Assumptions C11_shared_state_is_read_only_or_write_once.
 Print Assumptions C11_translator_understood_everything.
+Print Assumptions C11_suppression_is_file_local.
